@@ -189,6 +189,11 @@ wrap_line(const char *buf, off_t len)
 	char sendbuf[1048];	/* long enough for 2 lines to fit in */
 	size_t bo = 0;	/* offset in sendbuf */
 
+	/* this is the start of a line: a leading dot must be doubled
+	 * like send_plain() does it */
+	if (buf[0] == '.')
+		sendbuf[bo++] = '.';
+
 	while (off >= 970) {
 		off_t partoff = 800;
 
@@ -221,14 +226,12 @@ wrap_line(const char *buf, off_t len)
 		pos += partoff;
 		off -= partoff;
 	}
-	sendbuf[bo++] = ' ';
-	if (off + bo >= sizeof(sendbuf) - 2) {
-		/* The end of the line will be send by the calling function.
-		 * Only make sure the whitespace at the beginning of the new
-		 * line is there */
+	if (off + bo >= sizeof(sendbuf) - 3) {
+		/* the end of the line does not fit into the buffer anymore */
 		netnwrite(sendbuf, bo);
-		return pos;
+		bo = 0;
 	}
+	sendbuf[bo++] = ' ';
 	memcpy(sendbuf + bo, buf + pos, off);
 	bo += off;
 	memcpy(sendbuf + bo, "\r\n", 2);
